@@ -1062,13 +1062,18 @@ fn overlay_frontends(rep: &mut Report, cx: &Ctx, s: &Search, user: &LintGroupCon
             ..Default::default()
         };
         let d = st.generate_diagnostics(DiagnosticSeverity::Hint);
-        (d, st.linter.config.clone())
+        let after_diag = st.linter.config.clone();
+        let _ = st.generate_code_actions(lsx::tower_lsp::lsp_types::Range::default(), &lsx::config::CodeActionConfig::default());
+        if &st.linter.config != user {
+            return (d, st.linter.config.clone());
+        }
+        (d, after_diag)
     });
     match r {
         Ok((diags, after)) => {
             rep.monitor("ls_generate_diagnostics_checked", 1);
             if &after != user {
-                rep.fail("overlay_restore", "DocumentState::generate_diagnostics changed the stored configuration".into(), inp.clone());
+                rep.fail("overlay_restore", "DocumentState::generate_diagnostics / generate_code_actions changed the stored configuration".into(), inp.clone());
             }
             let mut a: Vec<String> = diags.iter().map(|d| d.message.clone()).collect();
             let mut b: Vec<String> = expected.iter().map(|l| l.message.clone()).collect();
@@ -1175,7 +1180,34 @@ fn wasm_history_case(rep: &mut Report, cx: &Ctx, objs: &[CMap], text: &str, orig
     let reg1: CMap = last.keys().map(|k| (k.clone(), None)).collect();
     let bits = |c: &LintGroupConfig| format!("b{}", probes.iter().map(|k| if c.is_rule_enabled(k) { '1' } else { '0' }).collect::<String>());
     rep.case(&case_line, &format!("{} {} | {} {}", dump_map(&stored), dump_map(&reg1), bits(&stored_cfg), bits(&mk_cfg(&reg1))));
-    // oracle: per rule, the last explicit choice of the history, else the curated default, decides what lint runs
+    // PROPERTY oracle: "set the linter's current configuration" — after the last settings object, a rule it
+    // leaves null / does not mention takes its curated default, a rule it sets explicitly takes that value.
+    // (The code merges instead: C11_wasm_history.  Only an observable difference is reported.)
+    if let Some(lastu) = objs.last() {
+        for (k, dflt) in &cx.curated {
+            let want = match lastu.get(k) {
+                Some(Some(b)) => *b,
+                _ => dflt.unwrap_or(false),
+            };
+            let have = match stored.get(k) {
+                Some(Some(b)) => *b,
+                _ => dflt.unwrap_or(false),
+            };
+            if want != have {
+                match lastu.get(k) {
+                    Some(Some(_)) => rep.fail("overlay", format!("rule {k}: the last settings object sets it to {want}, the Linter uses {have}"), inp.clone()),
+                    other => rep.fail(
+                        "wasm_null_does_not_reset",
+                        format!("rule {k}: the last settings object leaves it {}, an earlier one set it to {have}; the Linter still uses {have} instead of the curated default {want}",
+                                if other.is_some() { "null" } else { "absent" }),
+                        inp.clone(),
+                    ),
+                }
+                break;
+            }
+        }
+    }
+    // implementation-consistency oracle: per rule, the last explicit choice of the history, else the curated default, decides what lint runs
     let mut expect_cfg = cx.curated.clone();
     for u in objs {
         for (k, v) in u {
